@@ -1,5 +1,13 @@
-(* C13 — property theorems (bootstrap stage; see DESIGN.md section 6). *)
-From Verif Require Import Inflate.
-Theorem C13_spec_inflater_runs : status (inflate [] [3;0]) = Done /\ out (inflate [] [3;0]) = [].
-Proof. vm_compute. split; reflexivity. Qed.
-Print Assumptions C13_spec_inflater_runs.
+(* C13 — property theorems.  Model: RModel/Reader.v: the Reader's state and Reset.
+   Only statements, each closed by `exact`, followed by Print Assumptions. *)
+From Verif Require Import Reader ReaderProofs InflateMono.
+Open Scope N_scope.
+
+Theorem C13_reset_is_new : forall s : rstate, rs_reset s = rs_init.
+Proof. exact reset_is_new. Qed.
+Print Assumptions C13_reset_is_new.
+(* consequently a run after Reset is the run of a new Reader: it is a function of the new source only *)
+Theorem C13_run_after_reset : forall dict chunks term,
+  (rbytes (rrun dict chunks term), rerror (rrun dict chunks term)) = final_obs dict (concat chunks) term.
+Proof. exact (rrun_spec inflate_mono inflate_never_fuel). Qed.
+Print Assumptions C13_run_after_reset.
